@@ -1,6 +1,6 @@
 (* Proofs/RemoteSeek.v -- readSeekCloser refines an in-memory reader (C13_seek). *)
 From Oras Require Import Base.Prelude Base.Regex Generated.GC20 Generated.GC13 Model.Reference
-  Model.Registry Model.RemoteClient Model.RemoteSpec.
+  Model.Registry Model.RemoteClient Model.RemoteSpec Proofs.RemoteClient.
 Require Import Lia ZifyN ZifyNat.
 
 Lemma skipn_skipn {A} (n m : nat) (l : list A) : skipn n (skipn m l) = skipn (m + n) l.
@@ -18,6 +18,7 @@ Qed.
 
 Definition sk_inv (content : str) (k : rsc) (s : pos) : Prop :=
   k_size k = len content /\ k_off k = s_off s /\ k_closed k = s_closed s /\ k_bi k = s_bi s /\
+  k_nb k = S (k_bi k) /\
   (k_closed k = false -> k_rc k = skipn (N.to_nat (k_off k)) content).
 
 Lemma len_nat (s : str) : N.to_nat (len s) = length s.
@@ -30,19 +31,35 @@ Proof.
   pose proof (len_nat content). lia.
 Qed.
 
-Ltac fin := cbv beta iota zeta; unfold sk_inv; cbn [k_size k_off k_closed k_rc k_bi s_off s_closed s_bi];
+Ltac fin := cbv beta iota zeta; unfold sk_inv; cbn [k_size k_off k_closed k_rc k_bi k_nb k_rq s_off s_closed s_bi];
   repeat split; auto; try congruence; try (intro; congruence).
 
 Section SeekProof.
   Variable modes : nat -> bmode.
+  (* the registry model with range support answers the Range requests for blob [d] *)
+  Variable p : profile.
+  Variable d : str.
+  Hypothesis Hrange : p_range p = true.
+
+  Lemma range_srv_honest content i a bb :
+    a <= bb -> bb < len content ->
+    range_srv p d content None i a bb =
+    mkResp 206 (Some ct_octet) (opt_if (p_clen p) (bb + 1 - a)) (opt_if (p_dighdr p) d) None true None []
+           (slice a bb content).
+  Proof.
+    intros H1 H2. unfold range_srv, blob_resp. rewrite Hrange. cbn [negb andb].
+    assert (E1 : (a <=? bb) = true) by now apply N.leb_le.
+    assert (E2 : (bb <? len content) = true) by now apply N.ltb_lt.
+    now rewrite E1, E2.
+  Qed.
 
   Lemma rsc_step_refines content k s o :
     sk_inv content k s ->
-    let '(k1, rq, out) := rsc_step modes content k o in
+    let '(k1, rq, out) := rsc_step modes (range_srv p d content None) k o in
     let '(s1, rq', out') := ref_step modes content s o in
     rq = rq' /\ out = out' /\ sk_inv content k1 s1.
   Proof.
-    intros (Hsz & Hoff & Hcl & Hbi & Hrc). destruct o as [n|off w|].
+    intros (Hsz & Hoff & Hcl & Hbi & Hnb & Hrc). destruct o as [n|off w|].
     - (* Read *)
       unfold rsc_step, ref_step. rewrite <- Hcl. destruct (k_closed k) eqn:Ec.
       + fin.
@@ -59,8 +76,8 @@ Section SeekProof.
       + rewrite <- Hoff, <- Hsz, <- Hbi. cbv zeta.
         set (tgt := match w with
                     | SeekStart => off
-                    | SeekCurrent => (off + Z.of_N (k_off k))%Z
-                    | SeekEnd => (off + Z.of_N (k_size k))%Z
+                    | SeekCurrent => wrap64 (off + Z.of_N (k_off k))
+                    | SeekEnd => wrap64 (off + Z.of_N (k_size k))
                     end).
         destruct (tgt <? 0)%Z eqn:Eneg.
         * fin.
@@ -74,28 +91,33 @@ Section SeekProof.
                 pose proof (len_nat content). lia.
              ++ apply N.leb_gt in Ege.
                 assert (El : (t <? k_size k) = true) by (apply N.ltb_lt; exact Ege).
-                rewrite El. unfold range_body.
-                assert (E1 : (t <=? k_size k - 1) = true) by (apply N.leb_le; lia).
-                assert (E2 : (k_size k - 1 <? len content) = true) by (apply N.ltb_lt; lia).
-                rewrite E1, E2. cbn [andb]. fin.
+                rewrite El.
+                rewrite range_srv_honest by lia. cbn [r_status r_clen r_body].
+                change (206 =? 206) with true. cbn [negb is_body_status orb].
+                assert (Ecl : match opt_if (p_clen p) (k_size k - 1 + 1 - t) with
+                              | Some n0 => negb (n0 =? k_size k - t) | None => false end = false).
+                { destruct (p_clen p); cbn [opt_if]; auto.
+                  replace (k_size k - 1 + 1 - t) with (k_size k - t) by lia. now rewrite N.eqb_refl. }
+                rewrite Ecl. fin.
                 intros _. rewrite Hsz. apply slice_tail. lia.
     - (* Close *)
       unfold rsc_step, ref_step. fin.
   Qed.
 
   Lemma rsc_run_refines content os : forall k s,
-    sk_inv content k s -> rsc_run modes content k os = ref_run modes content s os.
+    sk_inv content k s -> rsc_run modes (range_srv p d content None) k os = ref_run modes content s os.
   Proof.
     induction os as [|o os IH]; intros k s Hinv; [reflexivity|].
     pose proof (rsc_step_refines content k s o Hinv) as Hs.
     cbn [rsc_run ref_run].
-    destruct (rsc_step modes content k o) as [[k1 rq] out].
+    destruct (rsc_step modes (range_srv p d content None) k o) as [[k1 rq] out].
     destruct (ref_step modes content s o) as [[s1 rq'] out'].
     destruct Hs as (-> & -> & Hinv1). f_equal. apply IH. exact Hinv1.
   Qed.
 
   Theorem seek_refines content os :
-    rsc_run modes content (rsc_open content (len content)) os = ref_run modes content (mkPos 0 false 0) os.
+    rsc_run modes (range_srv p d content None) (rsc_open content (len content)) os
+    = ref_run modes content (mkPos 0 false 0) os.
   Proof.
     apply rsc_run_refines. unfold sk_inv, rsc_open; cbn. repeat split; auto.
   Qed.
@@ -128,3 +150,61 @@ Section SeekProof.
       apply andb_true_iff in He as [_ He]. destruct (skipn l (x :: r)); [reflexivity|discriminate].
   Qed.
 End SeekProof.
+
+(* ---------- against ANY server: what a successful reconnect implies, and what is asked ---------- *)
+Section SeekAnyServer.
+  Variable modes : nat -> bmode.
+  Variable srv : nat -> N -> N -> response.
+
+  (* a Seek emits at most one request; it asks for bytes t..size-1 with t inside the blob *)
+  Theorem seek_request_shape k o k1 rq out :
+    rsc_step modes srv k o = (k1, rq, out) ->
+    rq = [] \/ exists t, rq = [(t, k_size k - 1)] /\ t < k_size k /\ k_rq k1 = S (k_rq k).
+  Proof.
+    destruct o as [n|off w|]; unfold rsc_step.
+    - destruct (k_closed k); [intro X; injection X as _ <- _; auto|].
+      destruct (read_chunk _ _ _) as [[got rest] eof]. intro X; injection X as _ <- _; auto.
+    - destruct (k_closed k); [intro X; injection X as _ <- _; auto|]. cbv zeta.
+      set (tgt := match w with SeekStart => off | SeekCurrent => _ | SeekEnd => _ end).
+      destruct (tgt <? 0)%Z; [intro X; injection X as _ <- _; auto|].
+      set (t := Z.to_N tgt).
+      destruct (t =? k_off k); [intro X; injection X as _ <- _; auto|].
+      destruct (k_size k <=? t) eqn:Ege; [intro X; injection X as _ <- _; auto|].
+      apply N.leb_gt in Ege.
+      destruct (negb (r_status (srv (k_rq k) t (k_size k - 1)) =? 206)).
+      + intro X; injection X as <- <- _. right. exists t. cbn. auto.
+      + destruct (match r_clen _ with Some n => _ | None => false end);
+          intro X; injection X as <- <- _; right; exists t; cbn; auto.
+    - intro X; injection X as _ <- _; auto.
+  Qed.
+
+  (* a reconnect is accepted only from a 206 whose Content-Length is absent or the length of
+     the requested range; the reader then serves that response's body *)
+  Theorem seek_accepts_consistent k off w k1 t0 b0 t :
+    rsc_step modes srv k (SSeek off w) = (k1, [(t0, b0)], SPos t) ->
+    let r := srv (k_rq k) t (k_size k - 1) in
+    t0 = t /\ r_status r = 206 /\ len_consistent r (k_size k - t) /\ k_rc k1 = r_body r /\ k_off k1 = t.
+  Proof.
+    unfold rsc_step. destruct (k_closed k); [discriminate|]. cbv zeta.
+    set (tgt := match w with SeekStart => off | SeekCurrent => _ | SeekEnd => _ end).
+    destruct (tgt <? 0)%Z; [discriminate|].
+    set (t' := Z.to_N tgt).
+    destruct (t' =? k_off k); [discriminate|].
+    destruct (k_size k <=? t'); [discriminate|].
+    destruct (r_status (srv (k_rq k) t' (k_size k - 1)) =? 206) eqn:Es; cbn [negb]; [|discriminate].
+    destruct (match r_clen (srv (k_rq k) t' (k_size k - 1)) with Some n => negb (n =? k_size k - t') | None => false end) eqn:El;
+      [discriminate|].
+    intro X. injection X as <- <- _ <-. cbn. apply N.eqb_eq in Es. apply len_check_spec in El. auto.
+  Qed.
+
+  (* the Range request is one the specification allows *)
+  Theorem seek_request_allowed main d k o k1 a bb out :
+    valid_repository main = true -> valid_digest d = true ->
+    rsc_step modes srv k o = (k1, [(a, bb)], out) ->
+    allowed (mkReq GET main (EBlob d) None None None None None (Some (a, bb)) []) = true.
+  Proof.
+    intros Vm Vd E. destruct (seek_request_shape _ _ _ _ _ E) as [X|(t & X & Ht & _)]; [discriminate|].
+    injection X as -> ->. unfold allowed. cbn [q_m q_repo q_ep q_digest q_mount q_ctype q_range q_body].
+    rewrite Vm, Vd. assert (E1 : (t <=? k_size k - 1) = true) by (apply N.leb_le; lia). now rewrite E1.
+  Qed.
+End SeekAnyServer.
